@@ -1,7 +1,7 @@
 (* C06 — resourceManager.Allocate on top of the ledger, and the history invariants:
    ledger = sum of the live pods, sharing limit, NUMA capacity. *)
 From Coq Require Import List ZArith Bool Lia Permutation.
-From Verif Require Import C06.Model C06.Spec C06.Proofs_base C06.Proofs_numa C06.Proofs_ledger
+From Verif Require Import C06.Model C06.OldModel C06.Spec C06.Proofs_base C06.Proofs_numa C06.Proofs_ledger
   C06.Proofs_gen C06.Proofs_take C06.Proofs_take2 C06.Proofs_alloc.
 Import ListNotations.
 Open Scope Z_scope.
@@ -44,19 +44,6 @@ Proof.
       apply filter_In in Hx. tauto.
 Qed.
 
-Lemma take_preferred_nil_exact c avail allocated n bind s :
-  NoDup (map cid (c_topo c)) ->
-  take_preferred c avail [] allocated n bind = Some s ->
-  aligned (c_topo c) n bind -> lenZ s = Z.max 0 n.
-Proof.
-  intros HT H Hal. rewrite take_preferred_nil in H. destruct (0 <? n) eqn:En.
-  - destruct (take_cpus c avail allocated n bind) as [s0|] eqn:E; [|discriminate].
-    cbn [option_map] in H. inversion H; subst s.
-    destruct (take_cpus_spec c _ _ _ _ _ HT E) as [H1 [_ [_ [_ H5]]]].
-    rewrite set_union_nil_l, (dedup_id _ H1). apply H5. exact Hal.
-  - inversion H; subst s. apply Z.ltb_ge in En. cbn. lia.
-Qed.
-
 Definition avail_of (o : nopts) (st : lstate) : list Z :=
   fst (available (o_topo o) (o_maxref o) (o_reserved o) (l_cpus st) []).
 
@@ -64,8 +51,7 @@ Lemma allocate_cpuset_spec o st rq numa s :
   NoDup (map cid (o_topo o)) ->
   allocate_cpuset o st rq numa = Some s ->
   NoDup s /\ incl s (avail_of o st)
-  /\ Z.max 0 (r_n rq) <= lenZ s
-  /\ (numa <> [] \/ aligned (o_topo o) (r_n rq) (r_bind rq) -> lenZ s = Z.max 0 (r_n rq))
+  /\ lenZ s = Z.max 0 (r_n rq)
   /\ (r_required rq = true -> satisfied_policy (r_bind rq) (o_topo o) s = true).
 Proof.
   intros HT H. unfold allocate_cpuset in H. unfold avail_of.
@@ -110,23 +96,20 @@ Proof.
                   | None => None
                   end
              else Some result) = Some r ->
-            NoDup r /\ incl r avail /\ Z.max 0 (r_n rq) <= lenZ r
-            /\ (numa <> [] \/ aligned (o_topo o) (r_n rq) (r_bind rq) -> lenZ r = Z.max 0 (r_n rq))).
+            NoDup r /\ incl r avail /\ lenZ r = Z.max 0 (r_n rq)).
   { intros r Hr. destruct (0 <? n') eqn:En.
     - apply Z.ltb_lt in En.
       destruct R3 as [[N1 [N2 N3]]|[N1 [N2 N3]]]; [|lia]. subst result n'.
       destruct (take_preferred (cfg_of o rq) (filter (fun i => negb (memZ i [])) avail) [] allocated (r_n rq) (r_bind rq))
         as [cpus|] eqn:E; [|discriminate].
       inversion Hr; subst r.
-      destruct (take_preferred_spec (cfg_of o rq) _ _ _ _ _ _ HT E) as [H1 [H2 [_ [H4 _]]]].
+      destruct (take_preferred_spec (cfg_of o rq) _ _ _ _ _ _ HT E) as [H1 [H2 [_ H4]]].
       rewrite set_union_nil_l, (dedup_id _ H1). splits; auto.
-      + intros x Hx. apply H2 in Hx. apply filter_In in Hx. tauto.
-      + intros [Hc|Hal]; [congruence|].
-        apply (take_preferred_nil_exact (cfg_of o rq) _ _ _ _ _ HT E Hal).
+      intros x Hx. apply H2 in Hx. apply filter_In in Hx. tauto.
     - apply Z.ltb_ge in En. inversion Hr; subst r.
       destruct R3 as [[N1 [N2 N3]]|[N1 [N2 N3]]].
-      + subst. cbn. splits; auto; try lia; try (intros _; cbn; lia).
-      + pose proof (lenZ_nonneg result). splits; auto; try lia; try (intros _; lia). }
+      + subst. cbn. splits; auto; try lia.
+      + pose proof (lenZ_nonneg result). splits; auto; try lia. }
   destruct (if 0 <? n'
             then match take_preferred (cfg_of o rq) (filter (fun i => negb (memZ i result)) avail) []
                                       allocated n' (r_bind rq) with
@@ -134,7 +117,7 @@ Proof.
                  | None => None
                  end
             else Some result) as [r|] eqn:Ef; [|discriminate].
-  destruct (Hfinal r eq_refl) as [F1 [F2 [F3 F4]]].
+  destruct (Hfinal r eq_refl) as [F1 [F2 F3]].
   destruct (r_required rq && negb (satisfied_policy (r_bind rq) (o_topo o) r)) eqn:Ep; [discriminate|].
   inversion H; subst s. splits; auto.
   - intros x Hx. apply Hav. apply F2. exact Hx.
@@ -527,18 +510,18 @@ Proof.
   repeat constructor; cbn; auto; try (intros [H|[]]; discriminate); try (intros []).
 Qed.
 
-Lemma ex_aligned : aligned overshoot_topo 8 1 /\ uniform_topo overshoot_topo = true /\ wf_topo overshoot_topo = true.
-Proof.
-  split; [|split; vm_compute; reflexivity].
-  intros _. replace (cpc overshoot_topo) with 2 by (vm_compute; reflexivity). exists 4. reflexivity.
-Qed.
+Lemma ex_uniform : uniform_topo overshoot_topo = true /\ wf_topo overshoot_topo = true.
+Proof. split; vm_compute; reflexivity. Qed.
 
 Lemma ex_d1 : distribute1 0 1 8 [(1, 10); (2, 2)] = ([(2, 2); (1, 6)], 0).
 Proof. vm_compute. reflexivity. Qed.
 
-Lemma take_exact_refuted_lemma : exists c avail allocated n bind s,
-  NoDup (map cid (c_topo c)) /\ take_cpus c avail allocated n bind = Some s /\ lenZ s <> n.
+(* regression for fix 43d7136: the old model variant violates exactness on this input, the
+   current one returns exactly 7 CPUs *)
+Lemma take_exact_old_refuted_lemma :
+  take_cpus_old (mkCfg overshoot_topo 1 0 true) overshoot_avail [] 7 1 = Some [4; 5; 6; 7; 12; 13; 20; 21]
+  /\ lenZ [4; 5; 6; 7; 12; 13; 20; 21] <> 7
+  /\ take_cpus (mkCfg overshoot_topo 1 0 true) overshoot_avail [] 7 1 = Some [4; 5; 6; 7; 12; 13; 14].
 Proof.
-  exists (mkCfg overshoot_topo 1 0 true), overshoot_avail, [], 7, 1, [4; 5; 6; 7; 12; 13; 20; 21].
-  split; [exact overshoot_topo_nodup|]. split; [exact take_overshoot_witness|exact overshoot_len].
+  split; [exact take_overshoot_old|]. split; [exact overshoot_len|exact take_overshoot_fixed].
 Qed.
